@@ -361,3 +361,116 @@ func init() {
 			return out, v, len(c.Times)
 		})
 }
+
+// ---------------------------------------------------------------------------------------------
+// A call WITHOUT own fields (Info(ctx, tag), Record without fields, a lazy generator returning nil)
+// still emits a record, and the hooks' results are in it: 3 call shapes x 8 hook subsets x 4 paths.
+// ---------------------------------------------------------------------------------------------
+
+type c10EmptyCase struct {
+	Shape string `json:"call"` // info | record | debug-nil
+	Hooks int    `json:"hooks"`
+	Path  string `json:"path"` // builtin | text | json | rec
+}
+
+func init() {
+	definePart("C10", "c10/calls-without-own-fields", "qt", "3 call shapes without own fields x 8 hook subsets x 4 paths (built-in logger, text layout, JSON layout, recording appender)",
+		func(tier string, yield func(c10EmptyCase)) {
+			for _, sh := range []string{"info", "record", "debug-nil"} {
+				for h := 0; h < 8; h++ {
+					for _, p := range []string{"builtin", "text", "json", "rec"} {
+						yield(c10EmptyCase{sh, h, p})
+					}
+				}
+			}
+		},
+		func(c c10EmptyCase) (string, []Violation, int) {
+			confReset()
+			key := fmt.Sprintf("%s hooks=%03b path=%s", c.Shape, c.Hooks, c.Path)
+			switch c.Path {
+			case "text", "json":
+				conf := map[string]string{"appender.c.type": "Console", "logger.root.type": "Logger", "logger.root.appenderRef.ref": "c",
+					"appender.c.layout.type": map[string]string{"text": "TextLayout", "json": "JSONLayout"}[c.Path]}
+				if err, pn := safeRefresh(conf); err != nil || pn != nil {
+					return "refresh-failed", []Violation{{Clause: "valid-config-rejected", Key: key, Detail: fmt.Sprintf("err=%v panic=%v", err, pn)}}, 1
+				}
+			case "rec":
+				if err, pn := safeRefresh(map[string]string{"appender.r0.type": "Rec", "logger.root.type": "Logger", "logger.root.appenderRef.ref": "r0"}); err != nil || pn != nil {
+					return "refresh-failed", []Violation{{Clause: "valid-config-rejected", Key: key, Detail: fmt.Sprintf("err=%v panic=%v", err, pn)}}, 1
+				}
+			}
+			log.TimeNow, log.StringFromContext, log.FieldsFromContext = nil, nil, nil
+			var nTime, nStr, nFld, nGen int
+			hookTime := time.Date(2031, 2, 3, 4, 5, 6, 7_000_000, time.UTC)
+			if c.Hooks&1 != 0 {
+				log.TimeNow = func(context.Context) time.Time { nTime++; return hookTime }
+			}
+			if c.Hooks&2 != 0 {
+				log.StringFromContext = func(context.Context) string { nStr++; return "cs-9" }
+			}
+			if c.Hooks&4 != 0 {
+				log.FieldsFromContext = func(context.Context) []log.Field {
+					nFld++
+					return []log.Field{log.String("cf", "v1"), log.Int("cn", 2)}
+				}
+			}
+			ctx := context.Background()
+			switch c.Shape {
+			case "info":
+				log.Info(ctx, tagC01)
+			case "record":
+				log.Record(ctx, log.WarnLevel, tagC01, 1)
+			case "debug-nil":
+				log.Debug(ctx, tagC01, func() []log.Field { nGen++; return nil })
+			}
+			log.TimeNow, log.StringFromContext, log.FieldsFromContext = nil, nil, nil
+			log.Destroy()
+			var v []Violation
+			fail := func(clause, d string) { v = append(v, Violation{Clause: clause, Key: key, Detail: d}) }
+			one := func(set bool) int {
+				if set {
+					return 1
+				}
+				return 0
+			}
+			if nTime != one(c.Hooks&1 != 0) || nStr != one(c.Hooks&2 != 0) || nFld != one(c.Hooks&4 != 0) {
+				fail("hook-call-count", fmt.Sprintf("TimeNow x%d, StringFromContext x%d, FieldsFromContext x%d (hooks set %03b)", nTime, nStr, nFld, c.Hooks))
+			}
+			if c.Shape == "debug-nil" && nGen != 1 {
+				fail("lazy-generator-count", fmt.Sprintf("lazy generator invoked %d times", nGen))
+			}
+			if c.Path == "rec" {
+				items := recStore["r0"]
+				if len(items) != 1 {
+					fail("emission", fmt.Sprintf("%d events recorded for one call without own fields", len(items)))
+					return recSummary(), v, 1
+				}
+				e := items[0].Event
+				if (c.Hooks&2 != 0) != (e.CtxString == "cs-9") || (c.Hooks&4 != 0) != (len(e.CtxFields) == 2) || (c.Hooks&1 != 0 && !e.Time.Equal(hookTime)) {
+					fail("record-ctx-fields", fmt.Sprintf("CtxString=%q CtxFields=%v Time=%v", e.CtxString, e.CtxFields, e.Time))
+				}
+				return recSummary(), v, 1
+			}
+			out := consoleBuf.String()
+			if strings.Count(out, "\n") != 1 {
+				fail("emission", fmt.Sprintf("one call without own fields wrote %q", out))
+				return out, v, 1
+			}
+			if c.Hooks&1 != 0 && !strings.Contains(out, "2031-02-03T04:05:06.007") {
+				fail("record-time", fmt.Sprintf("hook time not in %q", out))
+			}
+			if c.Hooks&2 != 0 && !strings.Contains(out, "cs-9") {
+				fail("record-ctx-string", fmt.Sprintf("context string not in %q", out))
+			}
+			if c.Hooks&4 != 0 {
+				want := "cf=v1||cn=2"
+				if c.Path == "json" {
+					want = `"cf":"v1","cn":2`
+				}
+				if !strings.Contains(out, want) {
+					fail("record-ctx-fields", fmt.Sprintf("the call has no own fields, the context-fields hook returned cf=v1, cn=2: they are not in the record %q", out))
+				}
+			}
+			return out, v, 1
+		})
+}
